@@ -445,7 +445,9 @@ func (s *Session) Run() (err error) {
 
 			s.processIncSeq(incomingLogon)
 		case SuccessfulLogged:
-			s.sendWithErrorCheck(s.MakeReject(s.SessionErrorCodes.Other, 0, incomingLogon.HeaderBuilder().MsgSeqNum()))
+			// Rejected like any other message that is not permitted in the current state:
+			// by the sequence number found in the raw bytes, naming the tag when it is missing.
+			s.RejectMessage(data)
 		}
 
 		return true
